@@ -363,6 +363,141 @@ def flat_bag(F, b):
     return ev
 
 
+class _TTUnknown(Exception):
+    pass
+
+
+def tt_run(F, b, assign, collect=None):
+    """evaluate a small loop-free function whose result is a bool (or an opaque value) under an assignment of its opaque atoms
+    (calls / comparisons rendered by nsig -> bool).  With `collect` (a set) unknown atoms are recorded and taken as False."""
+    pv = F.prov(b)
+
+    def atom(key):
+        if collect is not None:
+            collect.add(key)
+        if key in assign:
+            return assign[key]
+        if collect is not None:
+            return False
+        raise _TTUnknown(str(key))
+
+    def ev(t):
+        t = strip_payload(t)
+        if t in (('const', 'true'), ('const', 'const true')):
+            return True
+        if t in (('const', 'false'), ('const', 'const false')):
+            return False
+        if isinstance(t, tuple) and t:
+            if t[0] == 'unop' and t[1] == 'Not':
+                return not ev(t[2])
+            if t[0] == 'binop' and t[1] in ('Eq', 'Ne', 'Lt', 'Le', 'Gt', 'Ge'):
+                a, c = nsig(t[2][0]), nsig(t[2][1])
+                if t[1] in ('Eq', 'Ne'):
+                    a, c = sorted((a, c))
+                    v = atom(('Eq', a, c))
+                    return v if t[1] == 'Eq' else not v
+                if t[1] in ('Gt', 'Ge'):
+                    a, c = c, a
+                    op = {'Gt': 'Lt', 'Ge': 'Le'}[t[1]]
+                else:
+                    op = t[1]
+                return atom((op, a, c))
+            if t[0] == 'call':
+                nm = normname(t[1])
+                last = nm.split('::')[-1].rstrip('>')
+                if last in ('ne',) and len(t[2]) == 2:
+                    return not atom(('call', nm[:-2] + 'eq', tuple(nsig(x) for x in t[2])))
+                return atom(('call', nm, tuple(nsig(x) for x in t[2])))
+        raise _TTUnknown('term %s' % (t[0] if isinstance(t, tuple) and t else t))
+    bi, ret, steps = 0, None, 0
+    have = False
+    while steps < 120:
+        steps += 1
+        bb = b['blocks'][bi]
+        for s_ in bb['stmts']:
+            if s_['k'] == 'assign' and s_['dst'] == {'l': 0, 'p': []}:
+                rv = s_['rv']
+                if rv['k'] == 'use':
+                    ret = ev(pv.of_operand(rv['ops'][0]))
+                elif rv['k'] == 'binop':
+                    ret = ev(('binop', rv['op'], tuple(pv.of_operand(o) for o in rv['ops'])))
+                elif rv['k'] == 'unop':
+                    ret = ev(('unop', rv['op'], pv.of_operand(rv['ops'][0])))
+                else:
+                    raise _TTUnknown('result by ' + rv['k'])
+                have = True
+        t = bb['term']
+        if t['k'] == 'return':
+            if not have:
+                raise _TTUnknown('no result')
+            return ret
+        if t['k'] == 'call':
+            if t['dst'] == {'l': 0, 'p': []}:
+                ret = ev(pv.of_call(t, bi, 0))
+                have = True
+            bi = t.get('target', -1)
+        elif t['k'] in ('goto', 'drop', 'assert'):
+            bi = t['target']
+        elif t['k'] == 'switch':
+            opt = strip_payload(pv.of_operand(t['op']))
+            if isinstance(opt, tuple) and opt and opt[0] == 'discr':
+                raise _TTUnknown('enum switch')
+            v = ev(opt)
+            tg = [x for val, x in t['targets'] if val == (1 if v else 0)]
+            bi = tg[0] if tg else t['otherwise']
+        else:
+            raise _TTUnknown('terminator ' + t['k'])
+        if bi < 0:
+            raise _TTUnknown('diverges')
+    raise _TTUnknown('too long')
+
+
+def tt_compare(F, pa, sy, max_atoms=7):
+    """None when the pair is not a small loop-free bool function (or uses something the evaluator does not model); else
+    (equal?, witness assignment)"""
+    import itertools
+    for b in (pa, sy):
+        if b['kind'] == 'Closure' or F.types[b['locals'][0]].get('s') != 'bool' or F.cfg(b).loops() or len([1 for bb in b['blocks'] if not bb['cleanup']]) > 40:
+            return None
+    atoms = set()
+    try:
+        # collect atoms by exploring: start with everything False, then flip discovered atoms
+        seen_assign = set()
+        work = [()]
+        while work and len(atoms) <= max_atoms:
+            tr = work.pop()
+            a = {k: True for k in tr}
+            got = set()
+            for b in (pa, sy):
+                tt_run(F, b, a, got)
+            new = got - atoms
+            atoms |= got
+            for k in new:
+                nt = tuple(sorted(set(tr) | {k}, key=str))
+                if nt not in seen_assign:
+                    seen_assign.add(nt)
+                    work.append(nt)
+        if len(atoms) > max_atoms:
+            return None
+        # a verdict only when both copies are built from the same comparisons (else the difference is one of vocabulary, judged elsewhere)
+        own = []
+        for b in (pa, sy):
+            mine = set()
+            for vals in itertools.product((False, True), repeat=len(atoms)):
+                tt_run(F, b, dict(zip(sorted(atoms, key=str), vals)), mine)
+            own.append(mine)
+        if own[0] != own[1]:
+            return None
+        al = sorted(atoms, key=str)
+        for vals in itertools.product((False, True), repeat=len(al)):
+            a = dict(zip(al, vals))
+            if tt_run(F, pa, a) != tt_run(F, sy, a):
+                return False, {str(k): v for k, v in a.items()}
+        return True, None
+    except _TTUnknown:
+        return None
+
+
 def pairs(F):
     """(plain body, sync body) for every q present in both flavours of a pair; plus unpaired lists"""
     out, only_plain, only_sync = [], [], []
@@ -541,6 +676,12 @@ def sib(ctx):
             idiom_only = all((k == 'CALL' and STD_ONLY.match(n) and n.split('::')[-1].rstrip('>') in IDIOM_OPS) or (k == 'AGGR' and n.startswith('std::ops::Range')) for k, n in cdiff)
             # pure iteration plumbing (a loop written as an iterator chain or the other way round) is harmless in any function
             plumbing_only = all(k == 'CALL' and STD_ONLY.match(n) and n.split('::')[-1].rstrip('>') in ITER_PLUMBING for k, n in cdiff)
+            # small loop-free boolean functions (eq, is_*, comparisons): decided exactly by their truth tables over the calls they make
+            tt = tt_compare(F, pa, sy)
+            if tt is not None and tt[0] is False:
+                out.append(Obl('SIB', unflav(pa['q']).replace('F::', '%s|%s::' % (F.flavour(pa), F.flavour(sy)), 1), sy['span'], 'same program up to Rc/Arc, RefCell/RwLock', False,
+                               'the two copies compute different boolean functions of the same comparisons, e.g. under %s' % tt[1]))
+                continue
             # whatever the style, the two copies must have the same effects (closures merged)
             sa_, ss_ = sem_bag(F, F.bodies.get(owner_a, pa)), sem_bag(F, F.bodies.get(owner_s, sy))
             if sa_ != ss_:
@@ -561,7 +702,28 @@ def sib(ctx):
                 return c_
             # (operands that are closures are excluded: what a closure captures changes when a helper is extracted around it)
             operands_only = shape(ea) == shape(es) and any(not any('{closure' in str(x) for x in k_[4]) for k_ in list(d1) + list(d2))
-            if idiom_only and not operands_only:
+            # with an empty coarse difference the copies use the same operations; then they must also use them under the same
+            # conditions (which outcome of which test guards which event) -- `a && b` and `a || b` are not a matter of style
+            def cond_bag(bag_):
+                c_ = collections.Counter()
+                for (k_, n_, d_, cx_, sg_), cnt in bag_.items():
+                    if k_ == 'BINOP' or (k_ == 'CALL' and PLUMBING.match(n_)) or (k_ == 'AGGR' and n_.startswith('std::')):
+                        continue
+                    cx2 = set()
+                    for lab in cx_:
+                        m_ = re.match(r'^discr:std::(option::Option|result::Result|ops::ControlFlow)=(\w+)$', lab)
+                        if m_:
+                            cx2.add('OUTCOME=' + ('ok' if m_.group(2) in ('Some', 'Ok', 'Continue') else 'fail'))
+                        elif lab.startswith('call:std::option::Option::is_') or lab.startswith('call:std::result::Result::is_'):
+                            pos = lab.split('::')[-1].split('=')
+                            good = (pos[0] in ('is_some', 'is_ok')) == (pos[1] == 'T')
+                            cx2.add('OUTCOME=' + ('ok' if good else 'fail'))
+                        else:
+                            cx2.add(lab)
+                    c_[(k_, n_, tuple(sorted(cx2)))] += cnt
+                return c_
+            same_conditions = True
+            if idiom_only and not operands_only and same_conditions:
                 cov = cov if cov is not None else rule_coverage(ctx)
                 ca, cs = cov.get(owner_a), cov.get(owner_s)
                 if ca and cs and ca[0] > 0 and cs[0] > 0 and ca[1] and cs[1]:
